@@ -190,6 +190,22 @@ def dim_mismatch(reader="cursor"):
                                                 chunk(b"ANMF", anmf_payload(v, w=cw, h=ch)))), "dims-mismatch-frame"
 
 
+def vp8x_fields(reader="cursor"):
+    """the fixed fields of VP8X beyond the flags: every pattern of reserved bytes with one, two or three non-zero bytes (equal bytes,
+    bytes summing to 256, to 255), and canvas dimensions whose product sits on the 2^32 limit (2^32 - 1 = 65537 x 65535, 2^32, one more)"""
+    pats = [bytes(p) for p in ((1, 0, 0), (0, 1, 0), (0, 0, 1), (0x80, 0x80, 0), (0, 0x80, 0x80), (0x80, 0, 0x80), (0xff, 0x01, 0),
+                               (0x01, 0xff, 0), (7, 7, 0), (7, 0, 7), (0xaa, 0xaa, 0), (0x55, 0xaa, 0x01), (0xff, 0xff, 0x02), (0xff, 0xff, 0xff))]
+    for r in pats:
+        body = chunk(b"VP8X", vp8x_payload(0, 2, 3, reserved=r)) + mk(b"VP8 ")
+        yield case_line(reader, False, riff(body)), "vp8x-reserved"
+    for cw, ch in ((65537, 65535), (65535, 65537), (65536, 65536), (65536, 65535), (2 ** 24, 256), (2 ** 24, 255), (4294967295, 1),
+                   (1, 2 ** 24), (2 ** 16 + 1, 2 ** 16 - 1), (2 ** 24, 257), (3, 1431655765), (16777215, 257)):
+        if cw > 2 ** 24 or ch > 2 ** 24:
+            continue
+        body = chunk(b"VP8X", vp8x_payload(0, cw, ch)) + mk(b"VP8 ")
+        yield case_line(reader, False, riff(body)), "vp8x-canvas-product"
+
+
 def valid_files(rng=None):
     """a set of valid files of every shape (used as seeds for mutation/truncation)"""
     out = []
